@@ -113,6 +113,22 @@ IsValidSA(sa, t) ==
     /\ {sa[r] : r \in 1..cnt} = SentPositions(t)
     /\ LET X == Eager(TransformWith(t, ReadOffOrder(sa, t))) IN
        \A r \in 1..(n - 1) : SufLess(X, sa[r], sa[r + 1])
+\* IsValidSA with a WITNESS for the read-off order (for texts with ~10^5 sentinels, where looking up
+\* the row of every sentinel by search is quadratic): rk has one entry per text position; for a
+\* sentinel position p, rk[p+1] must be the row of p in sa -- verified here against sa itself, so the
+\* witness carries no authority.  Equivalent to IsValidSA (MC lemma SuffixIndexMC_C03!WitnessLemma).
+IsValidSAW(sa, t, rk) ==
+    LET n == Len(t)  s == Sentinel(t)  cnt == SentCount(t) IN
+    /\ IsPerm(sa, n) /\ Len(rk) = n
+    /\ sa[1] = n - 1
+    /\ \A r \in 1..cnt : t[sa[r] + 1] = s /\ rk[sa[r] + 1] = r - 1
+    /\ LET X == Eager([i \in 1..n |-> IF t[i] = s THEN rk[i] ELSE cnt + t[i]]) IN
+       \A r \in 1..(n - 1) : SufLess(X, sa[r], sa[r + 1])
+\* closed-form family: the unary text A^(n-1)$ has the suffix array n-1, n-2, ..., 0
+\* (MC lemma SuffixIndexMC_C03!UnaryLemma); used for texts too long to log (n > 2^24)
+UnaryText(n, a, s) == [i \in 1..n |-> IF i = n THEN s ELSE a]
+UnarySA(n) == [r \in 1..n |-> n - r]
+
 \* the sorted permutation for an admissible order (cubic; MC modules only)
 SortedSAWith(t, ord) ==
     LET n == Len(t)
